@@ -163,10 +163,12 @@ namespace pika::execution::experimental {
 
             void start() & noexcept
             {
+                PIKA_VERIF_POST("place.start", this, scheduler.get_thread_pool()->get_pool_index(), 0);
                 pika::detail::try_catch_exception_ptr(
                     [&]() {
                         scheduler.execute(
                             [&]() mutable {
+                                PIKA_VERIF_POST("place.run", this, reinterpret_cast<std::uintptr_t>(pika::threads::detail::get_self_id_data()), 0);
                                 pika::execution::experimental::set_value(std::move(receiver));
                             },
                             fallback_annotation);
@@ -175,6 +177,7 @@ namespace pika::execution::experimental {
                         pika::execution::experimental::set_error(
                             std::move(receiver), std::move(ep));
                     });
+                PIKA_VERIF_POST("place.started", nullptr, 0, 0);
             }
         };
 
